@@ -4,7 +4,7 @@ import ast
 
 from ..program import AnalysisError, walk_local, dotted
 from ..analysis import Spec, src, const_value
-from ..rules import (inside, before, GWF, EXC, mpt, need_func, stores_to, raise_class,
+from ..rules import (canon, string_template, substitute_locals, inside, before, GWF, EXC, mpt, need_func, stores_to, raise_class,
                      parent_map, kw, is_const, strip_wrappers, eval_atom,
                      UNKNOWN)
 from . import common
@@ -18,17 +18,93 @@ BR = GWF + '.branches'
 HELPERS = (GU + '.robust_merge', GU + '.consecutive_merge',
            GU + '.octopus_merge')
 
-# every direct <branch>.merge(...) call site outside the three merge helpers
+# every direct <branch>.merge(...) call site outside the three merge helpers:
+# function -> (role of the receiver, what the site is, max number of sites)
 MERGE_SITES = {
-    I + '.merge_integration_branches': ('first.dst_branch',
-                                        'first target <- its integration '
-                                        'branch'),
-    Q + '.merge_queues': ('destination', 'destination <- newest mergeable '
-                          'queue branch'),
-    Q + '.add_to_queue': ('qbranch', 'first queue <- first integration '
-                          'branch'),
-    I + '.check_conflict': ('wtmp', 'temporary branch (conflict probe)'),
+    I + '.merge_integration_branches': ('dst-of-first', 'first target <- its '
+                                        'integration branch', 1),
+    Q + '.merge_queues': ('dst-of-queue', 'destination <- newest mergeable '
+                          'queue branch', 1),
+    Q + '.add_to_queue': ('first-queue', 'first queue <- first integration '
+                          'branch', 1),
+    I + '.check_conflict': ('robot-named', 'temporary branch (conflict '
+                            'probe)', 1),
 }
+ROBOT_PREFIXES = ('w/', 'q/', 'tmp/')
+
+
+def _unpack_first(f, name):
+    """If `name` is the first element of `name, *rest = LIST`, return
+    (rest name, LIST expr)."""
+    for st in walk_local(f.node, include_root=False):
+        if isinstance(st, ast.Assign) and \
+                isinstance(st.targets[0], ast.Tuple) and \
+                len(st.targets[0].elts) == 2 and \
+                isinstance(st.targets[0].elts[0], ast.Name) and \
+                st.targets[0].elts[0].id == name and \
+                isinstance(st.targets[0].elts[1], ast.Starred) and \
+                isinstance(st.targets[0].elts[1].value, ast.Name):
+            return st.targets[0].elts[1].value.id, st.value
+    return None
+
+
+def _robot_named(f, recv):
+    """recv is a local every binding of which constructs a branch whose
+    name starts with a robot prefix (w/ q/ tmp/)."""
+    if not isinstance(recv, ast.Name):
+        return False
+    vals = [v for _, v in stores_to(f, recv.id)]
+    if not vals or any(v is None for v in vals):
+        return False
+    for v in vals:
+        if isinstance(v, ast.Call) and src(v.func) in (
+                'get_queue_integration_branch', 'get_queue_branch'):
+            continue
+        if not (isinstance(v, ast.Call) and src(v.func) in (
+                'branch_factory', 'git.Branch', 'GhostIntegrationBranch')
+                and len(v.args) >= 2):
+            return False
+        if src(v.func) == 'GhostIntegrationBranch':
+            continue        # stands for the source branch, create is a no-op
+        t = string_template(substitute_locals(f, v.args[1]))
+        if t is None or not t[0].startswith(ROBOT_PREFIXES):
+            return False
+    return True
+
+
+def _queue_list(an, f, expr):
+    """expr names the list [get_queue_branch(job, w.dst_branch) for w in
+    <integration branches>]."""
+    if not isinstance(expr, ast.Name):
+        return False
+    vals = [v for _, v in stores_to(f, expr.id) if v is not None]
+    for v in vals:
+        if isinstance(v, ast.ListComp) and len(v.generators) == 1 and \
+                isinstance(v.elt, ast.Call) and an.call_matches(
+                    f, v.elt, Spec.func(Q + '.get_queue_branch')) and \
+                len(v.elt.args) == 2 and not v.generators[0].ifs and \
+                src(v.elt.args[1]) == src(v.generators[0].target) + \
+                '.dst_branch':
+            return True
+    return False
+
+
+def _role_ok(an, f, role, call):
+    recv = call.func.value
+    text = canon(f, recv)
+    if role == 'dst-of-first':
+        return text.endswith('.dst_branch') and len(call.args) == 1 and \
+            src(call.args[0]) + '.dst_branch' == src(recv)
+    if role == 'dst-of-queue':
+        return text.endswith('[QueueBranch].dst_branch')
+    if role == 'first-queue':
+        u = _unpack_first(f, recv.id) if isinstance(recv, ast.Name) else None
+        return u is not None and _queue_list(an, f, u[1])
+    if role == 'robot-named':
+        return _robot_named(f, recv)
+    return False
+
+
 # call sites of the merge helpers: (function, dst role)
 HELPER_SITES = {
     I + '.merge_integration_branches': 'destination',
@@ -60,6 +136,7 @@ def run(prog, an, rep):
 def merge_sites(prog, an, rep):
     R = 'C01.WMC.merge-sites'
     n = 0
+    per_func = {}
     for f in prog.all_funcs():
         if f.module.name == 'bert_e.git_host.mock' or f.qname in HELPERS:
             continue
@@ -74,7 +151,9 @@ def merge_sites(prog, an, rep):
             rep.evaluated()
             recv = src(call.func.value)
             want = MERGE_SITES.get(f.qname)
-            rep.check(want is not None and want[0] == recv, R,
+            per_func[f.qname] = per_func.get(f.qname, 0) + 1
+            rep.check(want is not None and _role_ok(an, f, want[0], call) and
+                      per_func[f.qname] <= want[2], R,
                       '%s: %s.merge(...)' % (f.qname, recv), f.where(call),
                       'a branch is merged into (%s) at a call site that is '
                       'not one of the four known merge sites: destination '
@@ -107,14 +186,16 @@ def create_sites(prog, an, rep):
     """Branch.create on something that may be a destination branch only in
     create_branch."""
     R = 'C01.WMC.create-sites'
+    # function -> (role of the receiver, max number of sites)
     allowed = {
-        I + '.create_integration_branches': 'branch',     # w/
-        I + '.check_conflict': 'wtmp',
-        Q + '.get_queue_branch': 'qbranch',
-        Q + '.add_to_queue': 'qint',
-        GU + '.robust_merge': None,                        # tmp_*
-        'bert_e.jobs.create_branch.create_branch': 'new_branch',
+        I + '.create_integration_branches': ('robot-named', 1),   # w/
+        I + '.check_conflict': ('robot-named', 1),
+        Q + '.get_queue_branch': ('robot-named', 1),
+        Q + '.add_to_queue': ('robot-named', 2),
+        GU + '.robust_merge': ('robot-named', 2),                 # tmp/
+        'bert_e.jobs.create_branch.create_branch': ('requested', 1),
     }
+    per_func = {}
     n = 0
     for f in prog.all_funcs():
         if f.module.name.startswith('bert_e.git_host'):
@@ -128,8 +209,14 @@ def create_sites(prog, an, rep):
             n += 1
             rep.evaluated()
             recv = src(call.func.value)
-            ok = f.qname in allowed and (allowed[f.qname] is None or
-                                         allowed[f.qname] == recv)
+            per_func[f.qname] = per_func.get(f.qname, 0) + 1
+            ok = f.qname in allowed and \
+                per_func[f.qname] <= allowed[f.qname][1]
+            if ok and allowed[f.qname][0] == 'robot-named':
+                ok = _robot_named(f, call.func.value)
+            elif ok:
+                ok = canon(f, call.func.value).endswith(
+                    'job.settings.branch)')
             rep.check(ok, R, '%s: %s.create(...)' % (f.qname, recv),
                       f.where(call), 'a branch is created at an unknown '
                       'site: a destination branch could be (re)created '
@@ -272,23 +359,30 @@ def queue_merge_shape(prog, an, rep):
     if not ok:
         return
     qv, wv = (e.id for e in loop.target.elts)
-    qlist, wlist = (src(a) for a in it.args)
-    # qbranches = [get_queue_branch(job, w.dst_branch) for w in wbranches]
-    qb = [v for _, v in stores_to(f, qlist) if v is not None]
-    comp = [v for v in qb if isinstance(v, ast.ListComp)]
-    ok = False
-    for v in comp:
-        g = v.generators[0]
-        if isinstance(v.elt, ast.Call) and an.call_matches(
-                f, v.elt, Spec.func(Q + '.get_queue_branch')) and \
-                len(v.elt.args) == 2 and \
-                src(v.elt.args[1]) == src(g.target) + '.dst_branch' and \
-                not g.ifs:
-            ok = True
+    qrest, wrest = (src(a) for a in it.args)
+    # `first_q, *qrest = QL` and `first_w, *wrest = WL`: the loop ranges
+    # over what is left after the first pair (the names may be shadowed or
+    # not); QL = [get_queue_branch(job, w.dst_branch) for w in WL]
+    first_q = first_w = qfull = wfull = None
+    for st in walk_local(f.node, include_root=False):
+        if isinstance(st, ast.Assign) and \
+                isinstance(st.targets[0], ast.Tuple) and \
+                len(st.targets[0].elts) == 2 and \
+                isinstance(st.targets[0].elts[1], ast.Starred) and \
+                isinstance(st.targets[0].elts[0], ast.Name):
+            rest = src(st.targets[0].elts[1].value)
+            if rest == qrest:
+                first_q, qfull = st.targets[0].elts[0].id, st.value
+            elif rest == wrest:
+                first_w, wfull = st.targets[0].elts[0].id, st.value
     rep.evaluated()
+    ok = qfull is not None and _queue_list(an, f, qfull) and \
+        wfull is not None and src(wfull) == f.params[1]
     rep.check(ok, R, f.qname + ': queue n is the queue of the destination '
               'of integration branch n', f.where(), 'queue branches are '
-              'built as %s' % [src(v) for v in qb])
+              'taken from %s, integration branches from %s' % (
+                  src(qfull) if qfull is not None else '?',
+                  src(wfull) if wfull is not None else '?'))
     calls = _helper_call(an, f, loop)
     qint = None
     for call, (dst, s1, s2) in calls:
@@ -320,12 +414,6 @@ def queue_merge_shape(prog, an, rep):
     pre_c = [x for x in creates if before(f, x, loop)]
     in_c = [x for x in creates if inside(loop, x)]
     giq = Spec.func(Q + '.get_queue_integration_branch')
-    first_q = None
-    for st in walk_local(f.node, include_root=False):
-        if isinstance(st, ast.Assign) and \
-                isinstance(st.targets[0], ast.Tuple) and \
-                src(st.value) == qlist:
-            first_q = st.targets[0].elts[0].id
     rep.evaluated()
     ok = len(pre_b) == 1 and isinstance(pre_b[0][1], ast.Call) and \
         an.call_matches(f, pre_b[0][1], giq) and len(pre_c) == 1 and \
@@ -361,12 +449,6 @@ def queue_merge_shape(prog, an, rep):
     first_merge = [x for x in prog.calls_in(f)
                    if isinstance(x.func, ast.Attribute) and
                    x.func.attr == 'merge' and before(f, x, loop)]
-    first_w = None
-    for st in walk_local(f.node, include_root=False):
-        if isinstance(st, ast.Assign) and \
-                isinstance(st.targets[0], ast.Tuple) and \
-                src(st.value) == wlist:
-            first_w = st.targets[0].elts[0].id
     ok = len(first_merge) == 1 and \
         src(first_merge[0].func.value) == first_q and \
         [src(a) for a in first_merge[0].args] == [first_w] and \
@@ -408,7 +490,11 @@ def _merged_state_walk(an, f, dst, srcs, summaries):
         if n.kind == 'test':
             env = {}
             for (v, isnone) in nulls:
-                env[v] = None if isnone else _NOTNONE
+                # isnone: True (is None) / False (some object) /
+                # 'T' / 'F' (the constants True / False)
+                env[v] = None if isnone is True else \
+                    True if isnone == 'T' else \
+                    False if isnone == 'F' else _NOTNONE
             val = _eval_none(n.ast, env)
             if val is not None:
                 succs = c.branch(n, val)
@@ -448,8 +534,11 @@ def _eval_none(e, env):
             return isnone
         if isinstance(e.ops[0], ast.IsNot):
             return not isnone
-    if isinstance(e, ast.Name) and e.id in env and env[e.id] is None:
-        return False
+    if isinstance(e, ast.Name) and e.id in env:
+        if env[e.id] is None or env[e.id] is False:
+            return False
+        if env[e.id] is True:
+            return True
     return None
 
 
@@ -501,7 +590,8 @@ def _transfer(an, f, st, facts, nulls, summaries):
                 if known:
                     nulls.add((v, known[0][1]))
             elif isinstance(st.value, ast.Constant):
-                nulls.add((v, False))
+                nulls.add((v, 'T' if st.value.value is True else
+                           'F' if st.value.value is False else False))
     return frozenset(facts), frozenset(nulls)
 
 
